@@ -441,7 +441,8 @@ def resolve_name(obj, func, args, unknown=False):
             attr_owner = resolve_name(obj.value, func, args)
             try:
                 return getattr(attr_owner, obj.attr)
-            except AttributeError:
+            except Exception:
+                # absent, or a property that raises when read out of context
                 raise UnresolvableName(obj)
         else:
             raise UnresolvableName(obj)
